@@ -49,6 +49,7 @@ import numpy as np
 
 from ..core.ctx import CaseTimeout, exc_label, through_shim
 from ..gen import arrays as A
+from ..mon import siblings as S
 from ..mon.compare import compare_arrays, lazy_meta_mismatch
 
 PROP = "C27"
@@ -482,6 +483,7 @@ def _evaluate(case):
             out["findings"].append({"who": who, "sym": m[0], "msg": m[1],
                                     "detail": {"got": np.asarray(rv), "expected": e, "lazy": repr(lz)[:160]}})
     out["shapes"] = [list(np.shape(v)) for v in values][:4]
+    out["lazy"], out["values"] = lazy, values        # for the sibling facet in _run
     return out
 
 
@@ -556,6 +558,161 @@ def _run(case, ctx):
         feat = "&".join(f for f in feat.split("&") if f != "plain") or "any-input"
         ctx.violation("%s:%s:%s" % (who, feat, sym), fd["msg"], reduced_case=reduced, **fd["detail"])
     ctx.sample = {"op": plan["label"], "features": plan["feat"], "out_shapes": ev["shapes"]}
+    # ---- sibling facet: the same routine call with ONE other parameter must not share keys with this one ----------
+    if ev.get("lazy") is not None:
+        sib = _sibling(case)
+        if sib is not None:
+            param, c2 = sib
+
+            def build():
+                lz = globals()["_p_" + op](c2)["run"]()
+                return tuple(lz) if isinstance(lz, (tuple, list)) else lz
+
+            S.check(ctx, plan["label"], param, ev["lazy"], build, va=ev["values"],
+                    describe={k: v for k, v in c2.items() if case.get(k) != v})
+
+
+def _other(srng, cur, pool):
+    cand = [v for v in pool if v != cur]
+    return srng.choice(cand) if cand else None
+
+
+def _sib_bins(srng, b):
+    b = dict(b)
+    if b["kind"] == "int":
+        if srng.random() < 0.5:
+            b["n"] = b["n"] + 1
+        else:
+            b["range"] = [b["range"][0], b["range"][1] + 0.5]
+    else:
+        e = list(b["edges"])
+        b["edges"] = e + [e[-1] + 1] if (len(e) <= 2 or srng.random() < 0.5) else e[:-1]
+    return b
+
+
+def _sibling(case):
+    """(parameter, case with that ONE routine parameter changed) or None.  Parameters that change the NUMBER of outputs
+    (np.unique's return_* flags) are left alone; nonzero/argwhere/flatnonzero/unique have no other parameter."""
+    op = case["op"]
+    srng = S.rng_for(case)
+    c2 = dict(case)
+    if op == "bincount":
+        if case["split_every"] and srng.random() < 0.3:
+            c2["split_every"] = _other(srng, case["split_every"], (2, 3, 5))
+            return "split_every", c2
+        c2["minlength"] = _other(srng, case["minlength"], (0, 1, 3, 5, 9, 12))
+        return "minlength", c2
+    if op == "histogram":
+        if srng.random() < 0.3:
+            c2["density"] = not case["density"]
+            return "density", c2
+        c2["bins"] = _sib_bins(srng, case["bins"])
+        return "bins", c2
+    if op == "histogram2d":
+        if srng.random() < 0.3:
+            c2["density"] = not case["density"]
+            return "density", c2
+        if case["form"] == "int":
+            b = _sib_bins(srng, case["bx"])
+            if b["n"] != case["bx"]["n"]:
+                c2["bx"], c2["by"] = b, dict(case["by"], n=b["n"])
+            else:
+                c2["bx"] = b
+        else:
+            k = srng.choice(("bx", "by"))
+            c2[k] = _sib_bins(srng, case[k])
+        return "bins", c2
+    if op == "histogramdd":
+        if srng.random() < 0.3:
+            c2["density"] = not case["density"]
+            return "density", c2
+        bins = [dict(b) for b in case["bins"]]
+        if case["form"] == "int":
+            if srng.random() < 0.5:
+                for b in bins:
+                    b["n"] += 1
+            else:
+                bins[0]["range"] = [bins[0]["range"][0], bins[0]["range"][1] + 0.5]
+        else:
+            i = srng.randrange(len(bins))
+            bins[i] = _sib_bins(srng, bins[i])
+        c2["bins"] = bins
+        return "bins", c2
+    if op == "digitize":
+        if srng.random() < 0.5:
+            c2["right"] = not case["right"]
+            return "right", c2
+        e = list(case["edges"])
+        inc = len(e) < 2 or e[0] <= e[-1]
+        c2["edges"] = e + [e[-1] + (1 if inc else -1)]
+        return "bins", c2
+    if op == "searchsorted":
+        c2["side"] = "right" if case["side"] == "left" else "left"
+        return "side", c2
+    if op == "isin":
+        c2["invert"] = not case["invert"]
+        return "invert", c2
+    if op == "count_nonzero":
+        nd = len(case["a"]["shape"])
+        cur = case["axis"]
+        cand = [None] + list(range(nd))
+        cand = [a for a in cand if a != cur and not (isinstance(cur, int) and isinstance(a, int) and (a - cur) % nd == 0)
+                and not (nd == 1 and (a is None or cur is None or isinstance(cur, list)))]
+        if isinstance(cur, list):
+            cand = [a for a in cand if a is not None or len(cur) != nd]
+        if not cand:
+            return None
+        c2["axis"] = srng.choice(cand)
+        return "axis", c2
+    if op == "ravel_multi_index":
+        u = srng.random()
+        if u < 0.35 and len(case["dims"]) >= 2:
+            c2["order"] = "F" if case["order"] == "C" else "C"
+            return "order", c2
+        if u < 0.6:
+            c2["mode"] = _other(srng, case["mode"], ("wrap", "clip"))
+            return "mode", c2
+        dims = list(case["dims"])
+        dims[-1 if case["order"] == "C" and len(dims) > 1 else 0] += 1
+        c2["dims"] = dims
+        return "dims", c2
+    if op == "unravel_index":
+        if srng.random() < 0.4 and len(case["dims"]) >= 2:
+            c2["order"] = "F" if case["order"] == "C" else "C"
+            return "order", c2
+        dims = list(case["dims"])
+        dims[-1 if case["order"] == "C" else 0] += 1
+        c2["dims"] = dims
+        return "shape", c2
+    if op == "coarsen":
+        if srng.random() < 0.5 or not case["axes"]:
+            c2["red"] = _other(srng, case["red"], ("sum", "max", "min"))
+            return "reduction", c2
+        axes = dict(case["axes"])
+        k = srng.choice(sorted(axes))
+        n = case["a"]["shape"][int(k)]
+        if case["trim_excess"]:
+            cand = [f for f in range(1, max(1, n) + 1) if f != axes[k]]
+        else:
+            cand = [f for f in range(1, n + 1) if n % f == 0 and f != axes[k]]
+        if not cand:
+            c2["red"] = _other(srng, case["red"], ("sum", "max", "min"))
+            return "reduction", c2
+        axes[k] = srng.choice(cand)
+        c2["axes"] = axes
+        return "axes", c2
+    if op == "compress":
+        nd = len(case["a"]["shape"])
+        cur = case["axis"]
+        n = int(np.prod(case["a"]["shape"])) if cur is None else case["a"]["shape"][cur]
+        cand = [a for a in [None] + list(range(nd)) if a != cur and not (isinstance(cur, int) and a is not None and (a - cur) % nd == 0)
+                and (int(np.prod(case["a"]["shape"])) if a is None else case["a"]["shape"][a]) >= case["clen"]
+                and not (nd == 1)]
+        if not cand:
+            return None
+        c2["axis"] = srng.choice(cand)
+        return "axis", c2
+    return None
 
 
 # ---- ablations -------------------------------------------------------------------------------------------------
